@@ -27,7 +27,8 @@ RULE = ("create_cooler(ordered=False): regression corpus (D9: 2 or 3 chunks with
         "chunks that repeat a pixel (dupcheck off) x mergebuf 1 x max_merge {1, 200}; seeded random: 1..12 chunks over 4 bin tables (<= 6 bins, fixed / variable / two "
         "chromosomes), both storage modes, columns count / count+x, mergebuf 1..N+1, max_merge 1..k+1, unsorted chunks with ensure_sorted, empty chunks; all chunk orders of "
         "3-chunk inputs; `cooler load -f coo` and `cooler cload pairs` with --chunksize 1..4, --max-merge, --mergebuf, --temp-dir; edges of the first merge pass observed "
-        "with delete_temp=False; np.linspace edge lists for n <= 5000 checked admissible. non-trivial = a pixel occurs in >= 2 chunks, or >= 2 merge epochs, or two passes; distinct by input hash")
+        "with delete_temp=False; np.linspace edge lists for n <= 5000 checked admissible; merge_breakpoints at function level on every family of 1..2 monotone index "
+        "arrays of length 2..3 (increments 0..2) x bufsize 1..nnz+1 plus random larger ones; the known finding D22 in a fresh interpreter. non-trivial = a pixel occurs in >= 2 chunks, or >= 2 merge epochs, or two passes; distinct by input hash")
 TRUSTED = ["pandas concat/groupby/sort_values, np.linspace, tempfile.NamedTemporaryFile and h5py are observed through create_cooler, modelled by Model/Merge.v",
            "for the CLI runs the harness itself turns text lines into per-chunk records (bin assignment, upper-triangle reflection, per-chunk aggregation for cload): "
            "that is the ingest pipeline of C05, not part of this property"]
@@ -61,7 +62,7 @@ def impl_fresh_process(root, case):
     os.makedirs(sub, exist_ok=True)
     try:
         pr = subprocess.run([sys.executable, "-W", "ignore", "-c", _SUB, json.dumps(case), sub],
-                            capture_output=True, text=True, env=env, timeout=120)
+                            capture_output=True, text=True, env=env, timeout=60)
     except subprocess.TimeoutExpired:
         return "timeout"
     for ln in pr.stdout.splitlines():
@@ -79,7 +80,7 @@ def chunk_frame(ch, cols):
     return pd.DataFrame(d)
 
 
-def impl_api(root, case, limit=60.0):
+def impl_api(root, case, limit=20.0):
     import cooler
     td = os.path.join(root, "tmpdir")
     shutil.rmtree(td, ignore_errors=True)
@@ -132,7 +133,7 @@ def temp_edges(td, files):
     return None
 
 
-def impl_cli(root, case, limit=60.0):
+def impl_cli(root, case, limit=20.0):
     from click.testing import CliRunner
     from cooler.cli import cli
     td = os.path.join(root, "tmpdir")
@@ -542,6 +543,9 @@ def run(ctx):
             if canon(got) != canon(grp[0][1]):
                 ctx.fail(case, {"result depends on the chunk order": got, "first order": grp[0][1]}, None)
     linspace_check(ctx)
+    # merge_breakpoints is an anchored mechanism of this property too: function-level comparison on a reduced family
+    import c07
+    c07.run_breakpoints(ctx, small=True)
     ctx.extra["scopes"] = {"ingests": len(cases)}
     ctx.exhaustive = thorough
     shutil.rmtree(root, ignore_errors=True)
@@ -550,6 +554,9 @@ def run(ctx):
 def replay(ctx, case):
     root = str(ctx.tmp / "replay")
     os.makedirs(root, exist_ok=True)
+    if case["fn"] == "merge_breakpoints":
+        import c07
+        return c07.replay(ctx, case)
     if case["fn"] == "np.linspace":
         n = case["n"]
         e = np.linspace(0, n, max(int(np.sqrt(n)), 2), dtype=int).tolist()
